@@ -405,10 +405,6 @@ func report(out *checkOutcome, seed int, wall float64, repo string) int {
 }
 
 func levelOf(prop string) string {
-	switch prop {
-	case "C14":
-		return "other"
-	}
 	return "proof"
 }
 
